@@ -155,7 +155,7 @@ pub fn payload_len(rng: &mut Rng, max: usize) -> usize {
         7 => rng.range(0, 20_000),
         _ => rng.range(0, max),
     };
-    let max = if crate::framework::small_mode() { max.min(1500) } else { max };
+    let max = if crate::framework::small_mode() { max.min(400) } else { max };
     n.min(max)
 }
 
